@@ -764,3 +764,71 @@ func SliceInter(v ssa.Value, through func(c *ssa.Call) bool, cluster []*ssa.Func
 	}
 	return out
 }
+
+// Exit is one way a function returns: the values returned and the block whose end decides them. A function
+// written with result variables and a single return statement has one Return fed by phis; Exits expands that
+// join so that every rule sees the same exits as in the early-return form of the same function.
+type Exit struct {
+	Ret     *ssa.Return
+	Results []ssa.Value
+	Block   *ssa.BasicBlock // facts established on every path to the END of this block hold at the exit
+	Via     *ssa.BasicBlock // the join block the exit passes through (nil when Block is the return block)
+}
+
+func Exits(fn *ssa.Function) []Exit {
+	var out []Exit
+	for _, r := range Returns(fn) {
+		out = append(out, expandExit(Exit{Ret: r, Results: ReturnValues(r), Block: r.Block()}, 0)...)
+	}
+	return out
+}
+
+func expandExit(e Exit, depth int) []Exit {
+	b := e.Block
+	if depth > 3 || len(b.Preds) < 2 {
+		return []Exit{e}
+	}
+	// a pure join: phis, then (optionally via jumps already followed) the return; other instructions that do
+	// not feed the results (stores of results into named result cells, defers) are tolerated
+	anyPhi := false
+	for _, v := range e.Results {
+		if ph, ok := v.(*ssa.Phi); ok && ph.Block() == b {
+			anyPhi = true
+		}
+	}
+	if !anyPhi {
+		return []Exit{e}
+	}
+	var out []Exit
+	for i, p := range b.Preds {
+		res := make([]ssa.Value, len(e.Results))
+		for k, v := range e.Results {
+			res[k] = v
+			if ph, ok := v.(*ssa.Phi); ok && ph.Block() == b {
+				res[k] = ph.Edges[i]
+			}
+		}
+		via := e.Via
+		if via == nil {
+			via = b
+		}
+		out = append(out, expandExit(Exit{Ret: e.Ret, Results: res, Block: p, Via: via}, depth+1)...)
+	}
+	return out
+}
+
+// ExitGuarded reports whether every path to the exit crossed an edge whose fact satisfies pred: for an expanded
+// exit that includes the edge from its block into the join.
+func ExitGuarded(fn *ssa.Function, e Exit, pred func(Fact) bool) bool {
+	if GuardedBy(fn, e.Block, pred) {
+		return true
+	}
+	if e.Via != nil {
+		for si, s := range e.Block.Succs {
+			if s == e.Via && AnyEdgeFact(Edge{From: e.Block, Succ: si}, pred) {
+				return true
+			}
+		}
+	}
+	return false
+}
